@@ -6,6 +6,7 @@
    saver.go / exporter.go (scope: props/C15/NOTES.md).  The number of CPUs is not in the
    model; it is varied on the implementation side only. *)
 From Coq Require Import ZArith List String.
+Local Open Scope string_scope.
 From Acme.C16 Require Import Model.
 From Acme.C15 Require Import Model Spec Proofs.
 
@@ -51,6 +52,31 @@ Theorem export_history_free : forall evs s o1 o2, valid o1 -> valid o2 ->
 Proof. exact export_history_free_lemma. Qed.
 Print Assumptions export_history_free.
 
+(* Two builds of one model have different (random) entity ids.  When no sort key falls back to the
+   id - the id-erased networks are well-formed: attribute names per owner, receiver names per
+   message and (id, name) of the messages per interface are unique - the exports of two networks
+   that are equal up to their ids and the order of their map-like fields agree: the Markdown
+   outright (it shows no id), the save and DBC skeletons with the ids forgotten (entities are
+   identified by their handles). *)
+Theorem build_order_free_mod_ids : forall o1 o2 r1 r2, valid o1 -> valid o2 ->
+  wf_net (erase_net r1) -> wf_net (erase_net r2) -> net_equiv (erase_net r1) (erase_net r2) ->
+  md_raw o1 r1 = md_raw o2 r2 /\ save_noids o1 r1 = save_noids o2 r2 /\ dbc_noids o1 r1 = dbc_noids o2 r2.
+Proof. exact build_order_free_mod_ids_lemma. Qed.
+Print Assumptions build_order_free_mod_ids.
+
+(* The hypothesis cannot be dropped: two same-named attributes assigned to one entity are ordered
+   by their entity ids (ccef8ea), so two builds whose ids happen to compare the other way round
+   save and export them in the other order - both builds are well-formed, they are equal up to ids,
+   and their id-free outputs differ.  (Recorded as the open finding c15-rebuild-id-keyed-ties.) *)
+Theorem build_order_ids_refuted :
+  wf_net (tie_net "a" "b") /\ wf_net (tie_net "b" "a")
+  /\ net_equiv (erase_net (tie_net "a" "b")) (erase_net (tie_net "b" "a"))
+  /\ ~ wf_net (erase_net (tie_net "a" "b"))
+  /\ save_noids o_id (tie_net "a" "b") <> save_noids o_id (tie_net "b" "a")
+  /\ dbc_noids o_id (tie_net "a" "b") <> dbc_noids o_id (tie_net "b" "a").
+Proof. exact build_order_ids_refuted_lemma. Qed.
+Print Assumptions build_order_ids_refuted.
+
 (* Underlying fact: the getters return the same walked network. *)
 Theorem walk_canonical : forall o1 o2, valid o1 -> valid o2 ->
   forall r1 r2, net_equiv r1 r2 -> wf_net r1 -> walk o1 r1 = walk o2 r2.
@@ -69,6 +95,22 @@ Print Assumptions oracles_valid.
 Theorem wf_netb_correct : forall r, wf_netb r = true -> wf_net r.
 Proof. exact wf_netb_sound. Qed.
 Print Assumptions wf_netb_correct.
+
+Theorem wf_netb_complete_thm : forall r, wf_net r -> wf_netb r = true.
+Proof. exact wf_netb_complete. Qed.
+Print Assumptions wf_netb_complete_thm.
+
+(* [wf_net] is preserved by the changes of the history leg that move an entity in a sorted getter,
+   under the conditions under which acmelib accepts them (fresh bus name / node id free on every
+   bus); the other generated changes rewrite scalars that are in no sort key. *)
+Theorem wf_net_preserved :
+  (forall h new r, wf_net r -> NoDup (map rb_h (rt_buses r)) -> ~ In new (map rb_name (rt_buses r)) ->
+     wf_net (mut_bus_name h new r))
+  /\ (forall h new r, wf_net r ->
+        Forall (fun b => NoDup (map rn_h (rb_nifs b)) /\ ~ In new (map rn_id (rb_nifs b))) (rt_buses r) ->
+        wf_net (mut_node_id h new r)).
+Proof. exact (conj mut_bus_name_wf mut_node_id_wf). Qed.
+Print Assumptions wf_net_preserved.
 
 Theorem wf_net_example : wf_net ex_rnet.
 Proof. exact ex_rnet_wf. Qed.
